@@ -7,6 +7,9 @@
  *        parse <hex rule text | ->               real bus_match_rule_parse vs reference grammar (accept / error name)
  *        value <hex value text | ->              = parse on the rule text  arg0=<value text>   (quoting rules)
  *        key   <hex text | ->                    = parse on the text itself (start of a rule: key scanning)
+ *        argmatch <hex rule value | -> <kind 0 argN,1 argNpath,2 arg0namespace> <arg type code> <arg length> <a0> .. <a7>
+ *                                                = match on the rule arg0[path|namespace]=<value, quoted> and a message whose first
+ *                                                  argument is the string / object path with the given bytes (finder unit C07.find.match)
  *   ARG: s<hex>  STRING argument        o<hex>  OBJECT_PATH argument       u  a UINT32 argument (not matchable)
  *        (plain <hex> = s<hex>; "s-" / "o-" = empty string)
  *   options for match, given as further ARGs:  P<hex> message path (default /a)   I<hex> interface (default a.b)
@@ -46,6 +49,18 @@ int main (int argc, char **argv)
 {
   int n, i, want; char *text; DBusString s; DBusError e; BusMatchRule *rule;
   if (argc < 3) { fprintf (stderr, "usage: see header comment\n"); return 2; }
+  if (!strcmp (argv[1], "argmatch") && argc >= 14)
+    { /* rebuild the command line of mode "match" */
+      static char rule[256], arg[64], *nargv[5]; int vn, k, kind = atoi (argv[3]), atype = atoi (argv[4]), alen = atoi (argv[5]); char *val = unhex (argv[2], &vn), *q = rule, hexr[600], *h = hexr;
+      q += sprintf (q, "arg0%s=", kind == 1 ? "path" : kind == 2 ? "namespace" : "");
+      if (vn == 0) q += sprintf (q, "''");
+      for (k = 0; k < vn; k++) { if (val[k] == '\'') q += sprintf (q, "\\'"); else q += sprintf (q, "'%c'", val[k]); }
+      for (k = 0; rule[k]; k++) h += sprintf (h, "%02x", (unsigned char) rule[k]);
+      if (atype == DBUS_TYPE_STRING || atype == DBUS_TYPE_OBJECT_PATH)
+        { char *a = arg; *a++ = atype == DBUS_TYPE_STRING ? 's' : 'o'; if (alen <= 0) *a++ = '-'; for (k = 0; k < alen && k < 8; k++) a += sprintf (a, "%02x", (unsigned) atoi (argv[6 + k]) & 0xff); *a = 0; }
+      else strcpy (arg, atype == DBUS_TYPE_INVALID ? "T4" : "u");   /* no argument at all / an argument that is not a string */
+      nargv[0] = argv[0]; nargv[1] = "match"; nargv[2] = strdup (hexr); nargv[3] = arg; nargv[4] = NULL; argv = nargv; argc = 4;
+    }
   text = unhex (argv[2], &n);
   if (!strcmp (argv[1], "value")) { char *t2 = malloc (n + 6); memcpy (t2, "arg0=", 5); memcpy (t2 + 5, text, n + 1); text = t2; n += 5; argv[1] = "parse"; }
   else if (!strcmp (argv[1], "key")) argv[1] = "parse";
